@@ -354,7 +354,7 @@ theorem requestPhase_frame (params : RequestParams) (apps : List App) (w : World
   generalize yieldEv (.state (.checking params.source)) w = w0 at h0
   have h1 := h0.trans (frame_reportCheckInterval params.source w0)
   generalize reportCheckInterval params.source w0 = w1 at h1
-  have h2 : Frame w (nextGuid w1).2 := h1.trans ⟨rfl, rfl, rfl, rfl, rfl, rfl, rfl, rfl, rfl, rfl⟩
+  have h2 : Frame w (nextGuid w1).2 := h1.trans ⟨rfl, rfl, rfl, rfl, rfl, rfl, rfl, rfl, rfl, rfl, rfl⟩
   exact h2.trans (frame_attemptLoop 3 1 _ _)
 
 theorem requestPhase_marks (params : RequestParams) (apps : List App) (w : World) :
